@@ -15,6 +15,12 @@ CLAIMED = {
     "C04": ("static effect analysis over go/ssa (store-origin/ownership dataflow + VTA call graph)",
             "every store/map update/delete/append/copy reachable from Execute*/Evaluate/filters writes only per-execution or freshly allocated memory, never compiled-tree types or package variables; no reflect.Set*/unsafe; clock/random/map-order sources enumerated against documented exclusions",
             "equality of two renderings as observed values; user-supplied Go code", "DESIGN.md §3 C04"),
+    "C05": ("static effect analysis (store-origin/ownership) + lock-region must-dataflow over go/ssa, VTA call graph",
+            "every write reachable from concurrently callable entries (Execute*, ExecuteBlocks, From*, Render*, CleanCache, filters) goes to per-execution/fresh memory, to the template under construction, or to set state under the set mutex; the cache map is accessed only under its mutex",
+            "that concurrent runs return exactly the sequential outputs (observed equality); races inside user data, user funcs, loaders", "DESIGN.md §3 C05"),
+    "C20": ("lock-region must-dataflow, path-guard queries and call-graph reachability over go/ssa",
+            "cache map accessed only under the set mutex; Lock/Unlock paired on all exits; lookup and fill in one critical section; fill only on the err==nil edge and never in Debug mode; lookup/fill/delete agree on the normalised key; no re-entry into the mutex from inside the critical section; per-set state freshly allocated per instance",
+            "the number of loader fetches under a concrete schedule", "DESIGN.md §3 C20"),
 }
 
 NOT_APPLICABLE = {
